@@ -38,14 +38,17 @@ func cookieList(cs []*http.Cookie) string {
 }
 
 type sessStep struct {
-	sid     string   // session cookie presented ("" = none)
-	client  []string // other client cookies name=value (may include extra "sess=" duplicates)
-	host    string
-	path    string
-	set     []string // backend Set-Cookie header values
-	gotBack []*http.Cookie
-	gotSet  []*http.Cookie
-	newSid  string
+	sid           string   // session cookie presented ("" = none)
+	client        []string // other client cookies name=value (may include extra "sess=" duplicates)
+	host          string
+	path          string
+	set           []string // backend Set-Cookie header values
+	gotBack       []*http.Cookie
+	gotSet        []*http.Cookie
+	newSid        string
+	interim       int // number of 103 responses before the final one
+	interimCookie bool
+	status        int
 }
 
 func suiteSessions(e *vh.Env) {
@@ -72,11 +75,22 @@ func suiteSessions(e *vh.Env) {
 			if gate != nil {
 				<-gate
 			}
+			// interim responses first (what httputil.ReverseProxy does with a backend's 103: copy its header, WriteHeader, clear)
+			for k := 0; k < st.interim; k++ {
+				w.Header().Set("Link", "</s.css>; rel=preload")
+				if st.interimCookie {
+					w.Header().Add("Set-Cookie", "early=1")
+				}
+				w.WriteHeader(103)
+				for name := range w.Header() {
+					delete(w.Header(), name)
+				}
+			}
 			for _, sc := range st.set {
 				w.Header().Add("Set-Cookie", sc)
 			}
 			w.Header().Set("X-Other", "kept")
-			w.WriteHeader(200)
+			w.WriteHeader(st.status)
 		})
 		h := cache.SessionHandler(backend, nil)
 		if simple {
@@ -137,6 +151,12 @@ func suiteSessions(e *vh.Env) {
 					st.set = append(st.set, bad)
 				}
 			}
+			st.status = 200
+			if !simple && rng.Chance(12) {
+				st.interim = 1 + rng.Intn(2)
+				st.interimCookie = rng.Chance(40)
+				st.status = []int{200, 404, 302}[rng.Intn(3)]
+			}
 			req := httptest.NewRequest("GET", "http://"+st.host+st.path, nil)
 			req.Host = st.host
 			var ck []string
@@ -161,9 +181,19 @@ func suiteSessions(e *vh.Env) {
 				}
 			}
 			cur = st
-			rw := httptest.NewRecorder()
+			rw := &interimRecorder{ResponseRecorder: httptest.NewRecorder()}
 			h.ServeHTTP(rw, req)
 			st.gotSet = (&http.Response{Header: rw.Header()}).Cookies()
+			for _, ih := range rw.interimHdr {
+				for _, raw := range ih["Set-Cookie"] {
+					if !strings.HasPrefix(raw, sessName+"=") {
+						e.Fail("C10:backend-cookie-leaked", fmt.Sprintf("case %d step %d: an interim response carried the backend's Set-Cookie %q to the client", i, s, raw), i, nil, nil, nil)
+					}
+				}
+			}
+			if st.interim > 0 {
+				e.Count("interim")
+			}
 			if os.Getenv("VERIF_DEBUG") != "" {
 				fmt.Fprintf(os.Stderr, "cap=%d nsess=%d step=%d sid=%q eff=%q host=%s path=%s cookies=%v set=%v -> backend=%s setcookie=%s\n", capn, nsess, s, st.sid, effSid, st.host, st.path, ck, st.set, cookieList(st.gotBack), cookieList(st.gotSet))
 			}
@@ -255,6 +285,21 @@ func suiteSessions(e *vh.Env) {
 			e.Sample(map[string]interface{}{"case": i, "cap": capn, "sessions": nsess, "steps": steps, "simple": simple})
 		}
 	}
+}
+
+// interimRecorder: a ResponseRecorder that, like a real server connection, lets 1xx responses (other than 101)
+// pass without consuming the final header.
+type interimRecorder struct {
+	*httptest.ResponseRecorder
+	interimHdr []http.Header
+}
+
+func (r *interimRecorder) WriteHeader(code int) {
+	if code >= 100 && code <= 199 && code != 101 {
+		r.interimHdr = append(r.interimHdr, r.Header().Clone())
+		return
+	}
+	r.ResponseRecorder.WriteHeader(code)
 }
 
 func encCookies(ck []string) string {
